@@ -1,5 +1,5 @@
 CONSTANTS NK = 3  NM = 2  MaxPasses = 2
-          Shapes <- ShapesOC  Coins <- CoinsQ  HashTypes <- HTq  Passes <- DeepPasses
+          Shapes <- ShapesOC  Coins <- CoinsQ  HashTypes <- HTq  Passes <- DeepPasses  KcAdds <- NoKcAdds
 SPECIFICATION Spec
 INVARIANTS OutcomesCharacterized
 CHECK_DEADLOCK FALSE
